@@ -129,6 +129,10 @@ fn exhaustive_orders(ctx: &Ctx, ev: &mut Value) -> Option<Violation> {
             }
         }
     }
+    match crate::props::scenarios::monotone_siblings() {
+        Ok(n) => ev["coverage"]["monotone_sibling_histories"] = serde_json::json!(n),
+        Err(v) => return Some(v),
+    }
     ev["coverage"]["exhaustive_orders"] = serde_json::json!({"max_siblings": max_n, "histories": count, "exhaustive": true});
     if let Some(e) = ev["coverage"]["evaluations"].as_u64() {
         ev["coverage"]["evaluations"] = serde_json::json!(e + count);
